@@ -52,6 +52,7 @@ def run(tier: str) -> int:
     ck = core.Check("C33", tier)
     ck.rule = RULE
     P = QUICK if tier == "quick" else THOROUGH
+    ac.jvm_options(tier)
     pool = mp.get_context("fork").Pool(P["procs"])          # forked before any thread exists
     tp = ThreadPoolExecutor(max_workers=2 if tier == "quick" else 3)
     try:
